@@ -74,7 +74,7 @@ Post(s, o) ==
 Step(s, o) == IF Refused(s, o) THEN s ELSE Post(s, o)
 
 -----------------------------------------------------------------------------
-Init == /\ rm \in {NilRM(p, u) : p \in {0, 1}, u \in {0, 1}}
+Init == /\ \E p \in {0, 1}, u \in {0, 1} : rm = NilRM(p, u)
         /\ len = 0
         /\ hist = <<>>
 
